@@ -47,6 +47,8 @@ GRAMMARS = {
     "two": "start = second $ ;\nfirst = /\\d+/ ;\nsecond = /[a-z]+/ ;\n",
     "bad": "start = undefined_rule $ ;\n",                                # compile error
     "typed_d": "start = word $ ;\nword::Num = /[a-z]+/ ;\n",
+    # rule names that differ only in leading / trailing underscores (a lookup that tries several spellings of a name)
+    "us": "start = 'x' $ ;\n_start_ = 'y' $ ;\n_start = 'z' $ ;\nstart_ = 'w' $ ;\n",
     # type names that are also names of the library's own (SynthNode, Node, BaseNode, Any, Model): wherever synthesized
     # classes are kept, they must not displace what the library itself looks up by those names
     "typed_s": "start::SynthNode = v:/\\d+/ $ ;\n",
@@ -123,6 +125,7 @@ INPUTS = {
     "two": ["ab", "12"],
     "bad": ["x"],
     "typed_d": ["ab", "1"],
+    "us": ["x", "y", "z", "w"],
     "typed_s": ["1", "a"],
     "typed_n": ["1 a", "1"],
     "typed_e": ["a", "b", "c"],
@@ -171,8 +174,8 @@ for _g, _ts in INPUTS.items():
                 if _v not in _ts:
                     _ts.append(_v)
 FAMILIES = [["typed", "typed_b", "typed_c", "params", "typed_d", "typed_tok", "typed_s", "typed_n", "typed_e"], ["kw", "icase", "kw_b", "kw_c"], ["ref", "two", "choice", "ws", "choice_b"], ["lrec", "cut", "over", "named", "const", "lrec_b"],
-            ["nums", "nums_b"], ["cmt_a", "cmt_b", "cmt_c"], ["clo", "clo_b", "opt", "join", "nlist", "clo_n", "opt_n"], ["inh", "nomemo", "kwparams", "kwparams_b", "params"], ["eol", "ws"], ["wide", "wide_b", "kw"], ["bt", "bt_b", "lrec", "choice"], ["tok_a", "tok_b", "pat_a", "pat_b"], ["cn_a", "cn_b", "cn_c", "cn_d", "const"]]
-FAMILY_RULES = {"bt": ["start", "num", "e", "n", "x"], "cmt_a": ["start", "num"], "clo": ["start", "item", "word", "num"], "inh": ["start", "base", "sub", "a", "num"], "eol": ["start", "w", "word"], "nums": ["start", "value", "integer", "real", "flag"], "tok_a": ["start"], "typed": ["start", "num", "word", "nosuch"], "kw": ["start", "name", "stmt"], "ref": ["start", "num", "word", "first", "second", "x", "nosuch"],
+            ["nums", "nums_b"], ["us", "two"], ["cmt_a", "cmt_b", "cmt_c"], ["clo", "clo_b", "opt", "join", "nlist", "clo_n", "opt_n"], ["inh", "nomemo", "kwparams", "kwparams_b", "params"], ["eol", "ws"], ["wide", "wide_b", "kw"], ["bt", "bt_b", "lrec", "choice"], ["tok_a", "tok_b", "pat_a", "pat_b"], ["cn_a", "cn_b", "cn_c", "cn_d", "const"]]
+FAMILY_RULES = {"us": ["start", "_start_", "_start", "start_", "__start__"], "bt": ["start", "num", "e", "n", "x"], "cmt_a": ["start", "num"], "clo": ["start", "item", "word", "num"], "inh": ["start", "base", "sub", "a", "num"], "eol": ["start", "w", "word"], "nums": ["start", "value", "integer", "real", "flag"], "tok_a": ["start"], "typed": ["start", "num", "word", "nosuch"], "kw": ["start", "name", "stmt"], "ref": ["start", "num", "word", "first", "second", "x", "nosuch"],
                 "lrec": ["start", "e", "n", "a", "b", "num"]}
 
 
@@ -1016,8 +1019,44 @@ def ensure_zygote():
     _ZYGOTE["ready"] = True
 
 
+def calibration_descriptors(seed: int):
+    """Calls that EVERY hash-seed family evaluates in a fresh process (once per family), so that the comparison across
+    PYTHONHASHSEED values does not depend on two random histories happening to contain the same call: for a rotating
+    dozen of grammars (plus those whose rule names differ only in underscores) the one-shot parse, the generated
+    source, and the generated parser started at each of its rules."""
+    names = sorted(g for g in GRAMMARS if g not in ("bad", "manypat"))
+    rot = [names[(seed * 7 + i * 5) % len(names)] for i in range(10)] + ["us", "kw_c", "typed_c"]
+    out = []
+    for g in dict.fromkeys(rot):
+        text = GOOD_INPUT.get(g, INPUTS[g][0])
+        out.append({"op": "parse", "g": g, "text": text, "name": None, "asmodel": False, "sem": "none", "settings": {}})
+        out.append({"op": "parse", "g": g, "text": text, "name": None, "asmodel": True, "sem": "none", "settings": {"parseinfo": True}})
+        out.append({"op": "src", "g": g, "name": None})
+        load = {"op": "load", "g": g, "name": None}
+        for st in [None] + [x for x in start_choices(g) if x][:3]:
+            op = {"op": "pparse", "g": g, "text": text, "creator": load}
+            if st:
+                op["start"] = st
+            out.append(op)
+    return out
+
+
 def worker_init(d):
     ensure_zygote()
+    dump = os.environ.get("VERIF_REF_DUMP")
+    if dump:
+        # the first worker of a family does the calibration calls
+        try:
+            os.makedirs(dump, exist_ok=True)
+            fd = os.open(os.path.join(dump, "calibration.lock"), os.O_CREAT | os.O_EXCL | os.O_WRONLY)
+            os.close(fd)
+        except OSError:
+            return
+        for desc in calibration_descriptors(int(os.environ.get("VERIF_SEED", "0") or 0)):
+            try:
+                eval_reference(desc)
+            except HarnessError:
+                pass
 
 
 def ref_descriptor(op, creators):
@@ -1199,7 +1238,7 @@ def gen_call(rng, handles, models_only=False, allow_fault=True, focus=None):
     return op
 
 
-GOOD_INPUT = {"typed_s": "1", "typed_n": "1 a", "typed_e": "b", "wide": "undo", "wide_b": "add 1", "clo_n": "1", "opt_n": "let a = 1", "bt": "1-2", "bt_b": "a-b", "cmt_a": "1 (* c *) 2", "cmt_b": "1 {c} 2", "cmt_c": "1 2", "clo": "1", "clo_b": "1", "opt": "-1!", "join": "1", "nlist": "1,2", "inh": "x y", "nomemo": "x", "kwparams": "1", "kwparams_b": "1", "eol": "a\nb", "choice_b": "0x1f", "lrec_b": "a+b", "typed_tok": "begin 42", "kw_c": "IF", "manypat": "x71y", "cn_a": "7", "cn_b": "x", "cn_c": "x", "cn_d": "7 ab", "nums": "1", "nums_b": "1", "tok_a": "end if", "tok_b": "end  if", "pat_a": "12 34", "pat_b": "12  34", "ref": "12 ab", "choice": "a", "typed": "1", "typed_b": "1", "typed_c": "1 a", "typed_d": "ab", "params": "1", "kw": "x", "kw_b": "x",
+GOOD_INPUT = {"us": "x", "typed_s": "1", "typed_n": "1 a", "typed_e": "b", "wide": "undo", "wide_b": "add 1", "clo_n": "1", "opt_n": "let a = 1", "bt": "1-2", "bt_b": "a-b", "cmt_a": "1 (* c *) 2", "cmt_b": "1 {c} 2", "cmt_c": "1 2", "clo": "1", "clo_b": "1", "opt": "-1!", "join": "1", "nlist": "1,2", "inh": "x y", "nomemo": "x", "kwparams": "1", "kwparams_b": "1", "eol": "a\nb", "choice_b": "0x1f", "lrec_b": "a+b", "typed_tok": "begin 42", "kw_c": "IF", "manypat": "x71y", "cn_a": "7", "cn_b": "x", "cn_c": "x", "cn_d": "7 ab", "nums": "1", "nums_b": "1", "tok_a": "end if", "tok_b": "end  if", "pat_a": "12 34", "pat_b": "12  34", "ref": "12 ab", "choice": "a", "typed": "1", "typed_b": "1", "typed_c": "1 a", "typed_d": "ab", "params": "1", "kw": "x", "kw_b": "x",
               "icase": "x", "ws": "ab cd", "const": "a", "named": "1", "over": "(1)", "lrec": "1", "cut": "x y", "two": "ab"}
 
 
